@@ -26,6 +26,7 @@ import Chrono.Proofs.C15TotalL
 import Chrono.Proofs.C15RenderL
 import Chrono.Proofs.C15SerdeL
 import Chrono.Proofs.C15ZonedL
+import Chrono.Proofs.ScanBoundaryL
 
 namespace Chrono.Props.C15
 open Chrono Chrono.M Chrono.Spec Chrono.Proofs Chrono.Extracted
@@ -357,5 +358,112 @@ denote an instant beyond `MAX_UTC`: `None`, not an out-of-range value and not a 
 example : Zoned.with_time ⟨NaiveDT.MAX, 3600⟩ ⟨82800, 0⟩ = .ok none ∧
     Zoned.checked_add_days ⟨NaiveDT.MAX, 3600⟩ 18446744073709551615 = .ok none ∧
     Zoned.with_month ⟨NaiveDT.MAX, 3600⟩ 4294967295 = .ok none := by decide +kernel
+
+/-! ## byte level: `&str` slices are taken at char boundaries
+
+The scanner models work on byte lists and return the unconsumed suffix; Rust slices the `&str` at the
+number of bytes consumed (`&s[k..]`), which panics unless `k` is a char boundary.  `validUtf8` is the
+model of `str::from_utf8` (Model/TzParse.lean), `isCharBoundary` is `str::is_char_boundary`,
+`BoundarySuffix s rest` says that what was consumed is itself well-formed UTF-8 (Spec/Utf8Spec.lean). -/
+
+open Chrono.M.Tz Chrono.Spec.Utf8 Chrono.M.Scan in
+/-- **a boundary suffix is a legal slice.**  For a well-formed `s` and a suffix `rest` after a
+well-formed consumed part, with `k = s.len() − rest.len()` the number of bytes consumed: `k ≤ s.len()`,
+`rest` is `&s[k..]`, `s.is_char_boundary(k)` holds — the slice cannot panic — and `rest` is again
+well-formed (a `&str` for the next primitive). -/
+theorem boundary_suffix_is_char_boundary (s rest : List Nat) (hv : validUtf8 s = true)
+    (h : BoundarySuffix s rest) :
+    s.length - rest.length ≤ s.length ∧ rest = s.drop (s.length - rest.length) ∧
+    isCharBoundary s (s.length - rest.length) = true ∧ validUtf8 rest = true :=
+  Utf8.bs_boundary hv h
+
+open Chrono.M.Tz Chrono.Spec.Utf8 Chrono.M.Scan in
+/-- **slicing only after an ASCII match** (the anchored mechanism, in general form; it covers every
+slice site also inside a run that fails later): in a well-formed string, the position after any run of
+matched ASCII bytes, and the position right after ANY ASCII byte (whatever precedes it — `comment_2822`'s
+`&s[i + 1..]` after `)`), is a char boundary with a well-formed rest. -/
+theorem slice_after_ascii (pre rest : List Nat) (c : Nat) :
+    ((∀ b ∈ pre, b < 128) → validUtf8 (pre ++ rest) = true →
+      isCharBoundary (pre ++ rest) pre.length = true ∧ validUtf8 rest = true) ∧
+    (c < 128 → validUtf8 (pre ++ c :: rest) = true →
+      isCharBoundary (pre ++ c :: rest) (pre.length + 1) = true ∧ validUtf8 rest = true) := by
+  constructor
+  · intro ha hv
+    obtain ⟨_, _, h3, h4⟩ := Utf8.bs_boundary hv (Utf8.bs_ascii pre rest ha)
+    rw [List.length_append] at h3
+    rw [show pre.length + rest.length - rest.length = pre.length by omega] at h3
+    exact ⟨h3, h4⟩
+  · intro hc hv
+    have hp := Utf8.valid_upto_ascii _ pre c rest (Nat.le_refl _) hv hc
+    have hb : BoundarySuffix (pre ++ c :: rest) rest := ⟨pre ++ [c], by simp, hp⟩
+    obtain ⟨_, _, h3, h4⟩ := Utf8.bs_boundary hv hb
+    rw [List.length_append, List.length_cons] at h3
+    rw [show pre.length + (rest.length + 1) - rest.length = pre.length + 1 by omega] at h3
+    exact ⟨h3, h4⟩
+
+open Chrono.M.Tz Chrono.Spec.Utf8 Chrono.M.Scan in
+/-- **scan_prim_boundary.**  Every scanning primitive of src/format/scan.rs that returns a rest, on any
+input: what it consumed is well-formed UTF-8 — digits; matched ASCII letters (`| 32` comparisons and
+`eq_ignore_ascii_case` against ASCII tables match ASCII bytes only); whole white-space characters; `:`;
+`+`, `-` or the three bytes of U+2212; for `comment_2822` everything up to and including the closing `)`
+of a well-formed input — so by `boundary_suffix_is_char_boundary` the byte offset it slices at is a char
+boundary of every `&str`.  `number` is called with `min ≤ max` (asserted in the Rust code), `char` with an
+ASCII byte (all call sites pass `b':'`, `b'-'`). -/
+theorem scan_prim_boundary (s rest : List Nat) (v : Int) (k : Nat) (mx : Option Nat) (c : Nat) (i : Nat)
+    (w : Weekday) (cm : ColonMode) (z mm ms : Bool) :
+    (number s k mx = .ok (rest, v) → (∀ m, mx = some m → k ≤ m) → BoundarySuffix s rest) ∧
+    (nanosecond s = .ok (rest, v) → BoundarySuffix s rest) ∧
+    (nanosecond_fixed s k = .ok (rest, v) → BoundarySuffix s rest) ∧
+    (Scan.char s c = .ok rest → c < 128 → BoundarySuffix s rest) ∧
+    (space s = .ok rest → BoundarySuffix s rest) ∧
+    BoundarySuffix s (trimStart s) ∧ BoundarySuffix s (colon_or_space s) ∧
+    (short_month0 s = .ok (rest, i) → BoundarySuffix s rest) ∧
+    (short_weekday s = .ok (rest, w) → BoundarySuffix s rest) ∧
+    (short_or_long_month0 s = .ok (rest, i) → BoundarySuffix s rest) ∧
+    (short_or_long_weekday s = .ok (rest, w) → BoundarySuffix s rest) ∧
+    (timezone_offset s cm z mm ms = .ok (rest, v) → BoundarySuffix s rest) ∧
+    (timezone_offset_2822 s = .ok (rest, v) → BoundarySuffix s rest) ∧
+    (comment_2822 s = .ok rest → validUtf8 s = true → BoundarySuffix s rest) :=
+  ⟨fun h hm => ScanBoundary.number_bs s k mx rest v hm h, ScanBoundary.nanosecond_bs s rest v,
+   ScanBoundary.nanosecond_fixed_bs s k rest v, fun h hc => ScanBoundary.char_bs s rest c hc h,
+   ScanBoundary.space_bs s rest, ScanBoundary.trimStart_bs s, ScanBoundary.colon_or_space_bs s,
+   ScanBoundary.short_month0_bs s rest i, ScanBoundary.short_weekday_bs s rest w,
+   ScanBoundary.short_or_long_month0_bs s rest i, ScanBoundary.short_or_long_weekday_bs s rest w,
+   ScanBoundary.timezone_offset_bs s cm z mm ms rest v, ScanBoundary.timezone_offset_2822_bs s rest v,
+   fun h hv => ScanBoundary.comment_2822_bs s rest hv h⟩
+
+open Chrono.M.Tz Chrono.Spec.Utf8 Chrono.M.Scan in
+/-- **the slicing steps of src/format/parse.rs.**  On a well-formed text: one item of `parse_internal`
+(a literal `&str` prefix, a white-space item, a numeric item with its sign, `AM`/`PM` — two bytes
+matched with `| 32` —, `.` before a fraction, names, offsets, `%Z`'s run of whole non-space characters),
+the RFC 2822 scanner (`,` after the weekday, folding white space, legacy zones, trailing comments), the
+strict and the relaxed RFC 3339 scanner (`T`/`t`/space, `UTC` matched case-insensitively), and the whole
+item-driven parser for ANY item list whose literals are `&str`s (`ItemsUtf8`; true of every `Item` by its
+Rust type): what is consumed is well-formed UTF-8, so every slice is at a char boundary and the rest
+handed on (or returned by `parse_and_remainder`) is a `&str`. -/
+theorem parser_slices_at_boundaries (items : List Item) (it : Item) (p : Parsed) (s : List Nat) (p' : Parsed)
+    (s' : List Nat) (hv : validUtf8 s = true) :
+    (Parse.parseItemBase p s it = .ok (p', s') → (∀ lit, it = .literal lit → validUtf8 lit = true) →
+      BoundarySuffix s s') ∧
+    (Parse.parse_rfc2822 p s = .ok (p', s') → BoundarySuffix s s') ∧
+    (Parse.parse_rfc3339 p s = .ok (p', s') → BoundarySuffix s s') ∧
+    (Parse.parse_rfc3339_relaxed p s = .ok (p', s') → BoundarySuffix s s') ∧
+    (Parse.parse_internal p s items = .ok (p', s') → ScanBoundary.ItemsUtf8 items → BoundarySuffix s s') :=
+  ⟨fun h hl => ScanBoundary.parseItemBase_bs p s it p' s' hv hl h, ScanBoundary.parse_rfc2822_bs p s p' s' hv,
+   ScanBoundary.parse_rfc3339_bs p s p' s', ScanBoundary.parse_rfc3339_relaxed_bs p s p' s' hv,
+   fun h hl => ScanBoundary.parse_internal_bs items p s p' s' hv hl h⟩
+
+open Chrono.M.Tz Chrono.Spec.Utf8 Chrono.M.Scan in
+/-- non-vacuity, multi-byte characters right after the match: `jAn` before `é` (slice at 3, a boundary;
+4 is not); U+2212 as the sign of an offset followed by `é`; a comment containing `é` and an escaped `)`
+followed by `€` -/
+example :
+    validUtf8 [106, 65, 110, 195, 169] = true ∧
+    (short_month0 [106, 65, 110, 195, 169]).toOption = some ([195, 169], 0) ∧
+    isCharBoundary [106, 65, 110, 195, 169] 3 = true ∧ isCharBoundary [106, 65, 110, 195, 169] 4 = false ∧
+    (timezone_offset [226, 136, 146, 48, 49, 58, 48, 48, 195, 169] .colonOrSpace true false true).toOption
+      = some ([195, 169], -3600) ∧
+    (comment_2822 [32, 40, 195, 169, 92, 41, 41, 226, 130, 172]).toOption = some [226, 130, 172] := by
+  decide
 
 end Chrono.Props.C15
